@@ -191,3 +191,8 @@ def single_end_step_abstract(c):
     c.covers_subclasses = True
     c.spec(step_spec2)
     c.ensures(deterministic="is_none(result) == step_consumes(old(self), read, info)")
+
+
+def extra_checks(res, tier, seed, known, log):
+    from pyvc import runner
+    runner.cli_grid(res, "C04", tier, seed, known)
